@@ -795,3 +795,43 @@ def precedence_cases():
                     continue
                 out.append([fld, typ, glob])
     return out
+
+
+# ------------------------------------------------------------------------------------------
+# several root violations at once (and with an unrelated violation elsewhere): all must be reported
+
+
+def root_combinations():
+    """lists of 2-4 violations with at least one root violation; see C13 'root-combination'."""
+    q_opts = [
+        None,
+        {"op": "root-missing-query", "at": ["root", "query"]},
+        {"op": "root-non-object", "at": ["root", "query"], "to": "Node", "of": "interface"},
+        {"op": "root-non-object", "at": ["root", "query"], "to": "Kind", "of": "enum"},
+    ]
+    m_opts = [
+        None,
+        {"op": "root-non-object", "at": ["root", "mutation"], "to": "Node", "of": "interface"},
+        {"op": "root-non-object", "at": ["root", "mutation"], "to": "In", "of": "input"},
+    ]
+    s_opts = [
+        None,
+        {"op": "root-non-object", "at": ["root", "subscription"], "to": "Any", "of": "union"},
+        {"op": "root-non-object", "at": ["root", "subscription"], "to": "Sc", "of": "scalar"},
+    ]
+    u_opts = [
+        None,
+        {"op": "bad-name", "target": "field", "at": ["field", "Leaf", "only"], "bad": "digit"},
+        {"op": "empty", "target": "enum", "at": ["type", "One"]},
+        {"op": "duplicate", "target": "directive-arg", "at": ["directive-arg", "dir", "x"]},
+    ]
+    out = []
+    for q in q_opts:
+        for m in m_opts:
+            for s_ in s_opts:
+                for u in u_opts:
+                    vl = [copy.deepcopy(x) for x in (q, m, s_, u) if x is not None]
+                    roots = [x for x in (q, m, s_) if x is not None]
+                    if len(vl) >= 2 and roots:
+                        out.append(vl)
+    return out
